@@ -14,6 +14,47 @@ RULE = ("as C01, biased to the SAT/UNSAT boundary: small fields only (every rand
         "statements per block so that about half of the calls are unsatisfiable; satisfiability of every rand set is decided by "
         "exhaustive enumeration of the reference semantics in the Lean driver and compared with the outcome in both directions")
 
+def bitselect_witness(ck):
+    """F61: a bit select on a field reached through a list element is built as an array subscript; the satisfiable call
+    raises AttributeError from inside the library"""
+    import solvelib as S
+    S.install()
+    import vsc
+    from vsc.model.solve_failure import SolveFailure
+
+    @vsc.randobj
+    class L:
+        def __init__(self):
+            self.a = vsc.rand_uint8_t()
+
+    @vsc.randobj
+    class T:
+        def __init__(self):
+            self.l = vsc.rand_list_t(L())
+            self.l.append(L())
+            self.l.append(L())
+    case = {"class": "T: l = rand_list_t(L()) with 2 elements; L: a = rand_uint8_t",
+            "call": "with t.randomize_with() as it: it.l[1].a[7] == 1"}
+    ck.count("known_finding_witnesses")
+    known = [k for k in ck.known if k["id"] == "F61" and k.get("status") == "known"]
+    t = T()
+    try:
+        with common.quiet():
+            with t.randomize_with() as it:
+                it.l[1].a[7] == 1
+        if (int(t.l[1].a) >> 7) & 1 != 1:
+            ck.oracle_fail("hard-constraint-violated:bit-select-through-list-element", case, int(t.l[1].a), "bit 7 of l[1].a is 1")
+    except SolveFailure:
+        ck.oracle_fail("solvefailure-but-satisfiable:bit-select-through-list-element", case, "SolveFailure", "l[1].a = 128 satisfies the call")
+    except AttributeError as e:
+        if known and "field_l" in str(e):
+            ck.oracle_fail(known[0]["signature"], case, "AttributeError: " + str(e), known[0]["what"])
+        else:
+            ck.oracle_fail("internal-exception:AttributeError:bit-select-through-list-element", case, str(e), "a normal return")
+    except Exception as e:
+        ck.oracle_fail("internal-exception:%s:bit-select-through-list-element" % type(e).__name__, case, str(e)[:200], "a normal return")
+
+
 def list_witness(ck, tier):
     """F46: a satisfiable system over a random-size list fails (the size 0 solution is not found because the constraints
     are imposed on the elements the list is grown by)"""
@@ -51,4 +92,4 @@ if __name__ == "__main__":
     common.run_main(lambda: solvecheck.standard_main(
         "C02", ["C02"], THEOREMS, PROFILE, 300, 12000,
         ["as C01; exhaustive satisfiability is computed for rand sets with at most 13 random bits (count in coverage.counts.enumerated)"],
-        RULE, extra=list_witness))
+        RULE, extra=lambda ck, tier: (bitselect_witness(ck), list_witness(ck, tier))))
